@@ -1194,3 +1194,34 @@ def _gen_kfac_ctor(rng, model):
         class _Single:
             pass
     return MultiRankCase(world, build, note=f'world {world}, seed {seed}')
+
+
+# ----------------------------------------------------------------------------- triangular packing (C14)
+def _sym_tensor(rng):
+    import torch
+    n = rng.choice([1, 2, 3, 5])
+    dt = rng.choice([torch.float32, torch.float64, torch.float16])
+    t = torch.randn(n, n).to(dt)
+    t = ((t + t.t()) / 2).to(dt)
+    if rng.random() < 0.3:           # values whose double would overflow: packing moves elements, it does no arithmetic
+        big = torch.finfo(dt).max * 0.75
+        u = torch.where(torch.randn(n, n) < 0, torch.tensor(-big, dtype=torch.float64), torch.tensor(big, dtype=torch.float64))
+        t = (torch.triu(u) + torch.triu(u, 1).t()).to(dt)
+    return t
+
+
+@gen('kfac.distributed:get_triu')
+def _gen_get_triu(rng, model):
+    import torch
+    from kfac.distributed import get_triu
+    t = _sym_tensor(rng) if rng.random() < 0.7 else torch.randn(*rng.choice([(2, 3), (3, 2), (4,), (2, 2, 2), (1, 4)]))
+    return Case(get_triu, {'tensor': t}, [t], {})
+
+
+@gen('kfac.distributed:fill_triu')
+def _gen_fill_triu(rng, model):
+    from kfac.distributed import get_triu, fill_triu
+    t = _sym_tensor(rng)
+    packed = get_triu(t)
+    shape = tuple(t.shape) if rng.random() < 0.9 else (3,)
+    return Case(fill_triu, {'shape': shape, 'triu_tensor': packed}, [shape, packed], {}, note=f'n={t.shape[0]} {t.dtype}')
